@@ -18,6 +18,12 @@
 (*   Subscribe(m) a subscription message of the application (: 180-276):   *)
 (*                written at once while the handshake is open (sendDirect, *)
 (*                ahead of queued requests), through the queue afterwards  *)
+(*   CallBig(k,.) a SendTx whose write cannot complete: the service has    *)
+(*                stopped reading and then loses the connection; the       *)
+(*                message is carried over to the next connection           *)
+(*                (sendMessages returns it, runConnection : 1450-1540) and *)
+(*                written there once the handshake completes, ahead of the *)
+(*                queue (sendMessages : 1577)                              *)
 (*   Drop         the connection is lost, the client reconnects            *)
 (*   Stop         the application interrupts Run                           *)
 (***************************************************************************)
@@ -25,6 +31,7 @@ EXTENDS Integers, Sequences, FiniteSets, TLC
 
 CONSTANTS NCalls, Keys, Full,      \* Full = TRUE: connection type "full" (the handshake ends with Ready)
           MaxSteps, MaxNote,
+          Big,                     \* TRUE: with carried-over messages (CallBig)
           Subs,                    \* the subscription messages the application sends (a subset of SubNames)
           Fix                      \* repaired defects assumed: subset of {"rejectnohash"}
 
@@ -32,8 +39,8 @@ Kinds == {"GetTx", "GetHeader", "GetHeaders", "ReprocessTx", "MarkInvalid", "Mar
 Slots == 0..(NCalls - 1)
 Idle == [st |-> "idle", kind |-> "", key |-> 0, res |-> "", rkey |-> -1]
 
-VARIABLES ep, acc, hs, nextId, calls, sent, order, queue, stale, srv, deliv, run, steps, had, act
-vars == <<ep, acc, hs, nextId, calls, sent, order, queue, stale, srv, deliv, run, steps, had, act>>
+VARIABLES ep, acc, hs, nextId, calls, sent, order, queue, stale, srv, deliv, run, steps, had, carry, act
+vars == <<ep, acc, hs, nextId, calls, sent, order, queue, stale, srv, deliv, run, steps, had, carry, act>>
 A(a, k, kind, key) == [a |-> a, k |-> k, kind |-> kind, key |-> key]
 
 MsgName(kind) == CASE kind = "GetTx" -> "get_tx" [] kind = "GetHeader" -> "get_header" [] kind = "GetHeaders" -> "get_headers"
@@ -45,12 +52,15 @@ WireKey(kind, key) == IF kind = "FeeQuotes" THEN -1 ELSE key
 \* issued.  A call that gives up waiting (send time-out) leaves its message in the buffer (k = -1 below) and its
 \* registration in the request list (`stale`): the message is still written once the handshake completes, and the answer
 \* to it is absorbed by the stale registration.
-Flush(s) == s \o [i \in 1..Len(queue) |-> [t |-> MsgName(queue[i].kind), key |-> WireKey(queue[i].kind, queue[i].key), hs |-> TRUE]]
+NoCarry == [k |-> -1, ep |-> 0]
+Stuck == carry.k # -1 /\ carry.ep = ep           \* the send routine is blocked in the write of the carried message
+CarryMsg == IF carry.k # -1 THEN <<[t |-> "send_tx", key |-> calls[carry.k].key, hs |-> TRUE]>> ELSE <<>>
+Flush(s) == s \o CarryMsg \o [i \in 1..Len(queue) |-> [t |-> MsgName(queue[i].kind), key |-> WireKey(queue[i].kind, queue[i].key), hs |-> TRUE]]
 FlushSent == [k \in Slots |-> sent[k] \/ (calls[k].st = "pending")]
 FlushStale == [i \in 1..Len(stale) |-> [stale[i] EXCEPT !.w = TRUE]]
 
 Init == /\ ep = 1 /\ acc = FALSE /\ hs = FALSE /\ nextId = 1 /\ calls = [k \in Slots |-> Idle] /\ sent = [k \in Slots |-> FALSE]
-        /\ order = <<>> /\ queue = <<>> /\ stale = <<>> /\ srv = <<>> /\ deliv = <<>> /\ run = "running" /\ steps = 0 /\ had = FALSE /\ act = A("init", 0, "", 0)
+        /\ order = <<>> /\ queue = <<>> /\ stale = <<>> /\ srv = <<>> /\ deliv = <<>> /\ run = "running" /\ steps = 0 /\ had = FALSE /\ carry = NoCarry /\ act = A("init", 0, "", 0)
 
 Step == steps < MaxSteps /\ steps' = steps + 1 /\ run = "running"
 
@@ -59,17 +69,17 @@ Accept(v) ==
   /\ (v = "replay" => had)        \* the genuine accept of an earlier connection, sent again: its key belongs to another hash
   /\ IF v = "valid"
      THEN /\ acc' = TRUE /\ UNCHANGED run
-          /\ IF Full THEN UNCHANGED <<hs, srv, sent, queue, stale>>
-             ELSE hs' = TRUE /\ srv' = Flush(srv) /\ sent' = FlushSent /\ queue' = <<>> /\ stale' = FlushStale
+          /\ IF Full THEN UNCHANGED <<hs, srv, sent, queue, stale, carry>>
+             ELSE hs' = TRUE /\ srv' = Flush(srv) /\ sent' = FlushSent /\ queue' = <<>> /\ stale' = FlushStale /\ carry' = NoCarry
      ELSE /\ run' = (IF v \in {"wrongkey", "otherhash", "replay"} THEN "failed:wrongkey" ELSE "failed:badsig")
-          /\ UNCHANGED <<acc, hs, srv, sent, queue, stale>>
+          /\ UNCHANGED <<acc, hs, srv, sent, queue, stale, carry>>
   /\ act' = A("Accept", 0, v, 0) /\ UNCHANGED <<ep, nextId, calls, order, deliv, had>>
 
 Ready(n) ==
   /\ Step /\ acc /\ Full
   /\ nextId' = (IF n = 0 THEN 1 ELSE n) /\ hs' = TRUE
   /\ srv' = Flush(Append(srv, [t |-> "ready", key |-> (IF n = 0 THEN 1 ELSE n), hs |-> TRUE])) /\ sent' = FlushSent
-  /\ queue' = <<>> /\ stale' = FlushStale
+  /\ queue' = <<>> /\ stale' = FlushStale /\ carry' = NoCarry
   /\ act' = A("Ready", n, "", 0) /\ UNCHANGED <<ep, acc, calls, order, deliv, run, had>>
 
 \* The service answers the ready message at once with the first tx (id n): the client has written ready(n) but may not have
@@ -78,7 +88,7 @@ ReadyRace(n) ==
   /\ Step /\ acc /\ Full /\ n >= 1 /\ Len(deliv) < MaxNote
   /\ nextId' = n + 1 /\ hs' = TRUE /\ deliv' = Append(deliv, [kind |-> "tx", id |-> n])
   /\ srv' = Flush(Append(srv, [t |-> "ready", key |-> n, hs |-> TRUE])) /\ sent' = FlushSent
-  /\ queue' = <<>> /\ stale' = FlushStale
+  /\ queue' = <<>> /\ stale' = FlushStale /\ carry' = NoCarry
   /\ act' = A("ReadyRace", n, "", 0) /\ UNCHANGED <<ep, acc, calls, order, run, had>>
 
 Call(k, kind, key) ==
@@ -88,7 +98,17 @@ Call(k, kind, key) ==
   /\ order' = Append(SelectSeq(order, LAMBDA j : j # k), k)
   /\ IF hs THEN srv' = Append(srv, [t |-> MsgName(kind), key |-> WireKey(kind, key), hs |-> TRUE]) /\ sent' = [sent EXCEPT ![k] = TRUE] /\ UNCHANGED queue
           ELSE UNCHANGED srv /\ sent' = [sent EXCEPT ![k] = FALSE] /\ queue' = Append(queue, [k |-> k, kind |-> kind, key |-> key])
-  /\ act' = A("Call", k, kind, key) /\ UNCHANGED <<ep, acc, hs, nextId, stale, deliv, run, had>>
+  /\ act' = A("Call", k, kind, key) /\ UNCHANGED <<ep, acc, hs, nextId, stale, deliv, run, had, carry>>
+
+\* A SendTx the service does not read: the write blocks, the connection is lost (the only step enabled next is Drop), the
+\* message is carried over to the next connection.
+CallBig(k, key) ==
+  /\ Step /\ hs /\ carry.k = -1 /\ calls[k].st # "pending"
+  /\ \A j \in Slots : calls[j].st = "pending" => ~(calls[j].kind = "SendTx" /\ calls[j].key = key)
+  /\ calls' = [calls EXCEPT ![k] = [st |-> "pending", kind |-> "SendTx", key |-> key, res |-> "", rkey |-> -1]]
+  /\ order' = Append(SelectSeq(order, LAMBDA j : j # k), k)
+  /\ sent' = [sent EXCEPT ![k] = FALSE] /\ carry' = [k |-> k, ep |-> ep]
+  /\ act' = A("CallBig", k, "SendTx", key) /\ UNCHANGED <<ep, acc, hs, nextId, queue, stale, srv, deliv, run, had>>
 
 \* which registered request a response for (kind, key, form) is routed to: the first in registration order, or none.
 Routable(kind, form) == ~(form = "reject" /\ kind \in {"GetHeaders", "FeeQuotes"} /\ "rejectnohash" \notin Fix)   \* rejects without a hash are dropped
@@ -115,7 +135,7 @@ Respond(k, form) ==
                    ELSE /\ UNCHANGED calls
                         /\ IF kind = "GetHeaders" /\ form # "reject"          \* headers nobody asked for are a notification
                            THEN deliv' = Append(deliv, [kind |-> "hdrs", id |-> key]) ELSE UNCHANGED deliv
-  /\ act' = A("Respond", k, form, 0) /\ UNCHANGED <<ep, acc, hs, nextId, sent, order, queue, stale, srv, had>>
+  /\ act' = A("Respond", k, form, 0) /\ UNCHANGED <<ep, acc, hs, nextId, sent, order, queue, stale, srv, had, carry>>
 
 \* the service answers the (late) request of an abandoned call: the stale registration absorbs the answer
 RespondStale(i, form) ==
@@ -123,7 +143,7 @@ RespondStale(i, form) ==
   /\ \A j \in 1..(i - 1) : ~(stale[j].kind = stale[i].kind /\ (stale[j].key = stale[i].key \/ stale[i].kind = "FeeQuotes"))
   /\ stale' = IF Routable(stale[i].kind, form) THEN RemoveAt(stale, i) ELSE stale
   /\ act' = A("RespondStale", (IF form = "ok" THEN 0 ELSE 1), stale[i].kind, stale[i].key)
-  /\ UNCHANGED <<ep, acc, hs, nextId, calls, sent, order, queue, srv, deliv, run, had>>
+  /\ UNCHANGED <<ep, acc, hs, nextId, calls, sent, order, queue, srv, deliv, run, had, carry>>
 
 \* the service writes a headers notification, the next tx, the next tx update and an in-sync message in one go (a new block with
 \* its confirmations): the handlers get them in that order
@@ -133,22 +153,22 @@ BurstSeq(b) == <<[kind |-> "hdrs", id |-> b]>>
 Burst(b) ==
   /\ Step /\ Len(deliv) + 4 <= MaxNote
   /\ deliv' = deliv \o BurstSeq(b) /\ nextId' = IF acc THEN nextId + 2 ELSE nextId
-  /\ act' = A("Burst", b, "", 0) /\ UNCHANGED <<ep, acc, hs, calls, sent, order, queue, stale, srv, run, had>>
+  /\ act' = A("Burst", b, "", 0) /\ UNCHANGED <<ep, acc, hs, calls, sent, order, queue, stale, srv, run, had, carry>>
 
 SubNames == {"subscribe_push_data", "unsubscribe_push_data", "subscribe_tx", "unsubscribe_tx", "subscribe_outputs", "unsubscribe_outputs",
              "subscribe_headers", "unsubscribe_headers", "subscribe_contracts", "unsubscribe_contracts"}
 Subscribe(m) ==
   /\ Step /\ Len(srv) < MaxNote + 6
   /\ srv' = Append(srv, [t |-> m, key |-> -1, hs |-> hs])
-  /\ act' = A("Subscribe", 0, m, 0) /\ UNCHANGED <<ep, acc, hs, nextId, calls, sent, order, queue, stale, deliv, run, had>>
+  /\ act' = A("Subscribe", 0, m, 0) /\ UNCHANGED <<ep, acc, hs, nextId, calls, sent, order, queue, stale, deliv, run, had, carry>>
 
 TimeoutAll ==
-  /\ Step /\ \E k \in Slots : calls[k].st = "pending"
+  /\ Step /\ carry.k = -1 /\ \E k \in Slots : calls[k].st = "pending"
   /\ calls' = [k \in Slots |-> IF calls[k].st = "pending" THEN [calls[k] EXCEPT !.st = "done", !.res = "timeout"] ELSE calls[k]]
   /\ LET unsent == SelectSeq(order, LAMBDA k : calls[k].st = "pending" /\ ~sent[k])
      IN /\ stale' = stale \o [i \in 1..Len(unsent) |-> [kind |-> calls[unsent[i]].kind, key |-> calls[unsent[i]].key, w |-> FALSE]]
         /\ queue' = [i \in 1..Len(queue) |-> [queue[i] EXCEPT !.k = -1]]
-  /\ act' = A("Timeout", 0, "", 0) /\ UNCHANGED <<ep, acc, hs, nextId, sent, order, srv, deliv, run, had>>
+  /\ act' = A("Timeout", 0, "", 0) /\ UNCHANGED <<ep, acc, hs, nextId, sent, order, srv, deliv, run, had, carry>>
 
 Notify(kind, id) ==
   /\ Step /\ Len(deliv) < MaxNote
@@ -156,17 +176,18 @@ Notify(kind, id) ==
      THEN IF acc /\ id = nextId THEN deliv' = Append(deliv, [kind |-> kind, id |-> id]) /\ nextId' = id + 1
                                 ELSE UNCHANGED <<deliv, nextId>>
      ELSE deliv' = Append(deliv, [kind |-> kind, id |-> (IF kind = "insync" THEN 0 ELSE id)]) /\ UNCHANGED nextId
-  /\ act' = A("Notify", id, kind, 0) /\ UNCHANGED <<ep, acc, hs, calls, sent, order, queue, stale, srv, run, had>>
+  /\ act' = A("Notify", id, kind, 0) /\ UNCHANGED <<ep, acc, hs, calls, sent, order, queue, stale, srv, run, had, carry>>
 
 Drop ==
   /\ Step
   /\ ep' = ep + 1 /\ acc' = FALSE /\ hs' = FALSE /\ srv' = <<>> /\ had' = (had \/ acc)
-  /\ act' = A("Drop", 0, "", 0) /\ UNCHANGED <<nextId, calls, sent, order, queue, stale, deliv, run>>
+  /\ act' = A("Drop", 0, "", 0) /\ UNCHANGED <<nextId, calls, sent, order, queue, stale, deliv, run, carry>>
 
 Stop == /\ Step /\ run' = "stopped" /\ act' = A("Stop", 0, "", 0)
-        /\ UNCHANGED <<ep, acc, hs, nextId, calls, sent, order, queue, stale, srv, deliv, had>>
+        /\ UNCHANGED <<ep, acc, hs, nextId, calls, sent, order, queue, stale, srv, deliv, had, carry>>
 
-Next == \/ \E v \in {"valid", "wrongkey", "otherhash", "badsig", "counts", "replay"} : Accept(v)
+Others ==
+        \/ \E v \in {"valid", "wrongkey", "otherhash", "badsig", "counts", "replay"} : Accept(v)
         \/ \E n \in 0..4 : Ready(n)
         \/ \E n \in 2..3 : ReadyRace(n)
         \/ \E k \in Slots, kind \in Kinds, key \in Keys : Call(k, kind, key)
@@ -176,7 +197,9 @@ Next == \/ \E v \in {"valid", "wrongkey", "otherhash", "badsig", "counts", "repl
         \/ \E kind \in {"tx", "upd", "insync", "hdrs"}, id \in 1..5 : Notify(kind, id)
         \/ (\E m \in Subs : Subscribe(m))
         \/ (\E b \in {7} : Burst(b))
-        \/ Drop \/ Stop
+        \/ (\E k \in Slots, key \in Keys : Big /\ CallBig(k, key))
+        \/ Stop
+Next == (~Stuck /\ Others) \/ Drop
 Spec == Init /\ [][Next]_vars
 
 -----------------------------------------------------------------------------
@@ -221,8 +244,11 @@ BurstP(s, t, e) == (e.a = "Burst") =>                                           
 SubscribeP(s, t, e) == (e.a = "Subscribe") => t.srv = Append(s.srv, [t |-> e.kind, key |-> -1, hs |-> s.hs])               \* C18: subscriptions do not wait
 QuietP(s, t, e) == (e.a \in {"Call", "Respond", "RespondStale", "Timeout", "Stop", "Subscribe"} /\ ~(e.a = "Respond" /\ s.calls[e.k].kind = "GetHeaders"))
                      => (t.deliv = s.deliv /\ t.nextId = s.nextId)                                                          \* C17: nothing else reaches handlers
+CarriedP(s, t, e) == (e.a = "CallBig") => (t.srv = s.srv /\ t.calls[e.k].st = "pending")                            \* C18: nothing is written ...
+CarryGatedP(s, t, e) == (e.a \in {"Drop", "Accept"} /\ ~t.hs) => \A i \in 1..Len(t.srv) : t.srv[i].t \in Handshake   \* ... on the next connection before its handshake
 StepProps == [][AcceptP(S, S', act') /\ NotifyP(S, S', act') /\ RespondP(S, S', act') /\ AnsweredP(S, S', act') /\ TimeoutP(S, S', act')
                 /\ ReadyP(S, S', act') /\ NotifyOtherP(S, S', act') /\ DropP(S, S', act') /\ FlushP(S, S', act') /\ WrittenP(S')
-                /\ QuietP(S, S', act') /\ SubscribeP(S, S', act') /\ BurstP(S, S', act') /\ ReadyRaceP(S, S', act')]_vars
+                /\ QuietP(S, S', act') /\ SubscribeP(S, S', act') /\ BurstP(S, S', act') /\ ReadyRaceP(S, S', act')
+                /\ CarriedP(S, S', act') /\ CarryGatedP(S, S', act')]_vars
 RejectProps == [][RejectSurfacesP(S, S', act')]_vars
 =============================================================================
